@@ -50,6 +50,16 @@ theorem matmulOp_value (a b r : Op α) (h : matmulOp a b = .ok r) (i j : Nat) (h
     (hk : a.cols = b.rows) :
     r.denote i j = sumN a.cols fun k => a.denote i k * b.denote k j := matmulOp_refines a b r h i j hi hk
 
+/-- **Orientation is kept**: `Diag @ Triangular(T, upper=u)` is a TriangularLinearOperator with the SAME `upper` flag
+(`TriangularLinearOperator(self @ other._tensor, upper=other.upper)`); the class-tree correspondence compares the flag. -/
+theorem diag_matmul_tri_keeps_orientation (n k m : Nat) (d : Nat → α) (up : Bool) (t : NMat α) :
+    matmulOp (.diag n d) (.tri up (.dense k m t)) = .ok (.tri up (.dense n m fun i j => d i * t i j)) := by
+  simp [matmulOp, isConstDiag, isDiag, rows, diagOf]
+
+/-- transposing a Triangular flips the flag, transposing twice restores it. -/
+theorem transpose_tri_flag (up : Bool) (t : Op α) :
+    transposeOp (.tri up t) = .tri (!up) (transposeOp t) := by simp [transposeOp]
+
 /-- The Mul constructor's operand swap (larger root first) is invisible in the value. -/
 theorem mkMul_value (a b : Op α) (i j : Nat) : (mkMul a b).denote i j = a.denote i j * b.denote i j :=
   mkMul_refines a b i j
